@@ -687,6 +687,15 @@ pub fn run(tier: Tier, replay: Option<&str>) {
             cfgs.push(c);
         }
     }
+    // The start documents with patched counters are the harness's way into a state, not documents the stack wrote: a
+    // stack that refuses one of them (it may: 'malformed documents are refused') loses that start state, nothing else.
+    // The documents of a fresh session and of every state reached from it are the stack's own and must restore.
+    let n_cfgs = cfgs.len();
+    cfgs.retain(|c| {
+        let patched = c.fcnt_up.is_some() || c.fcnt_down.is_some() || c.adr_ack_cnt.is_some();
+        !patched || catch(|| patched_session_cfg(c)).is_ok()
+    });
+    let start_documents_refused = n_cfgs - cfgs.len();
     let mut states = 0u64;
     let mut transitions = 0u64;
     let mut capped = false;
@@ -754,10 +763,11 @@ pub fn run(tier: Tier, replay: Option<&str>) {
     }
     let coverage = json!({
         "states": states,
+        "start_documents_refused": start_documents_refused,
         "transitions": transitions,
         "traces_validated_against_impl": transitions,
         "samples": [
-            {"cfg": serde_json::to_value(&cfgs[1]).unwrap(), "history": serde_json::to_value(&alphabet("EU868")[..2]).unwrap()},
+            {"cfg": serde_json::to_value(&cfgs[(cfgs.len() - 1).min(1)]).unwrap(), "history": serde_json::to_value(&alphabet("EU868")[..2]).unwrap()},
             {"document": docs.first().cloned().unwrap_or_default()},
         ],
         "evaluations": ctx.evals(),
